@@ -18,29 +18,33 @@ PendLids == {s.H[i].lid : i \in {j \in 1..Len(s.H) : s.H[j].ackc # NOACK}}
 HoldLids == {s.H[i].lid : i \in 1..Len(s.H)}
 
 SimStep ==
-    \/ /\ turn \in {"ack", "ack2", "ack3"}
-       /\ LockReq(Pick(Lids), TRUE, Pick(Vals), Pick(AckTimeouts))
-    \/ /\ turn = "plain"
-       /\ LockReq(Pick(Lids), FALSE, Pick(PlainVals), Pick(Timeouts))
-    \/ /\ turn = "unlock" /\ HoldLids # {}
-       /\ UnlockReq(Pick(HoldLids))
-    \/ /\ turn = "same" /\ PendLids # {}
-       /\ \/ UnlockReq(Pick(PendLids))
-          \/ LockReq(Pick(PendLids), Pick(BOOLEAN), 0, Pick(Timeouts))
-    \/ ChanStep
-    \/ /\ ~Busy
-       /\ \/ /\ turn \in {"flush", "flush2"}
-             /\ \E ok \in BOOLEAN : LeaderFlush(ok)
-          \/ /\ turn \in {"fack", "fack2", "fack3", "fack4"}
-             /\ \E f \in Followers, rid \in 1..MaxReq, b \in BOOLEAN : FollowerBoth(f, rid, b)
-          \/ /\ turn = "cut"
-             /\ \E f \in Followers : Cut(f)
-          \/ \E rid \in 1..MaxReq : FireTimeout(rid)
-          \/ /\ turn \in {"tick", "tick2"}
-             /\ Tick
-          \/ /\ turn = "demote"
-             /\ Demote1
-          \/ Demote2 \/ Demote3
+    \/ /\ s.fl = "mid"
+       /\ \/ ChanStep
+          \/ \E ok \in BOOLEAN : FlushValues(ok)
+    \/ /\ s.fl = "idle"
+       /\ \/ /\ turn \in {"ack", "ack2", "ack3"}
+             /\ LockReq(Pick(Lids), TRUE, Pick(Vals), Pick(AckTimeouts))
+          \/ /\ turn = "plain"
+             /\ LockReq(Pick(Lids), FALSE, Pick(PlainVals), Pick(Timeouts))
+          \/ /\ turn = "unlock" /\ HoldLids # {}
+             /\ UnlockReq(Pick(HoldLids))
+          \/ /\ turn = "same" /\ PendLids # {}
+             /\ \/ UnlockReq(Pick(PendLids))
+                \/ LockReq(Pick(PendLids), Pick(BOOLEAN), 0, Pick(Timeouts))
+          \/ ChanStep
+          \/ /\ ~Busy
+             /\ \/ /\ turn \in {"flush", "flush2"}
+                   /\ \E ok \in BOOLEAN : FlushRecords(ok)
+                \/ /\ turn \in {"fack", "fack2", "fack3", "fack4"}
+                   /\ \E f \in Followers, rid \in 1..MaxReq, b \in BOOLEAN : FollowerBoth(f, rid, b)
+                \/ /\ turn = "cut"
+                   /\ \E f \in Followers : Cut(f)
+                \/ \E rid \in 1..MaxReq : FireTimeout(rid)
+                \/ /\ turn \in {"tick", "tick2"}
+                   /\ Tick
+                \/ /\ turn = "demote"
+                   /\ Demote1
+                \/ Demote2 \/ Demote3
     \/ UNCHANGED <<s, hist>>
 
 SimNext == SimStep /\ turn' = Pick(Turns)
